@@ -60,14 +60,18 @@ class SoapClientPool:
                 entry.usr_idents.remove(usr_ident)
                 self._logger.info('forget user ref for netloc {}, {} user refs remaining',  # noqa: PLE1205
                                   netloc, len(entry.usr_idents))
+            soap_client_to_close = None
             if len(entry.usr_idents) == 0:
-                if entry.soap_client is not None:
-                    self._logger.info('close soap client for netloc {}', netloc)  # noqa: PLE1205
-                    if self.async_loop_subscr_mgr is None:
-                        entry.soap_client.close()
-                    else:
-                        self.async_loop_subscr_mgr.run_coro(entry.soap_client.async_close())
+                soap_client_to_close = entry.soap_client
                 self._soap_clients.pop(netloc)
+        # close outside the lock: with the async loop the close runs as a coroutine in the loop thread, and coroutines
+        # running there (sending notifications) call get_soap_client, which needs this lock => deadlock otherwise
+        if soap_client_to_close is not None:
+            self._logger.info('close soap client for netloc {}', netloc)  # noqa: PLE1205
+            if self.async_loop_subscr_mgr is None:
+                soap_client_to_close.close()
+            else:
+                self.async_loop_subscr_mgr.run_coro(soap_client_to_close.async_close())
 
     def close_all(self):
         """Close all connections."""
